@@ -1,4 +1,6 @@
-"""Translator target 'GaussCond' -> lean/CopVerif/Gen/GaussCond.lean (property C12, tie (T), DESIGN 2.2).
+"""Translator target 'GaussCond' -> lean/CopVerif/Gen/GaussCond.lean (property C12, tie (T), DESIGN 2.2; the
+unconditional path `sample(n)` = `Gen.GaussCond.sample … none` is also property C01's translator tie: Props/C01b.lean,
+Lemmas/GaussSampleGen.lean, obligation tv:GaussCond of tools/props/c01.py).
 
 Reads the AST of /repo/copulas/multivariate/gaussian.py (nothing is imported) and emits, in namespace
 `CopVerif.Gen.GaussCond`, a symbolic translation of the conditional-sampling path of `GaussianMultivariate`:
